@@ -1,8 +1,346 @@
-(** C08 - placeholder while the harness is brought up *)
+(** C08 - the effective request config is the most-specific-wins merge, scoped by path;
+    tools run exactly when the merged config turns them on; unrepr reads literals back.
+    Property theorems only; each is closed by [exact] of a lemma from Proof/
+    (P_config.v, P_config_tools.v, P_unrepr.v, composed in P_config_thm.v).
+
+    Vocabulary (definitions in Model/M_dispatch.v, Model/M_config.v, Model/M_unrepr.v, Proof/P_config*.v):
+    - [conf]            a Python dict key |-> value (text tokens); [uniq c]: every key once (a dict);
+                        [assoc k c] = c.get(k); [overlay base c] = base.update(c);
+                        [same_dict a b]: equal under every lookup;
+                        [lookup_levels k levels g]: the value of k in the LAST of g :: levels that sets it.
+    - [request_conf mode na root aconf gconf path method]  request.config after get_resource
+                        (mode 0 = Dispatcher, else MethodDispatcher; None = the dispatcher raised);
+                        [aconf] = app.config (section path |-> dict), [gconf] = cherrypy.config.
+    - [find_handler], [fh_trail]  the dispatcher of C02 and the object_trail it hands to set_conf;
+                        an [entry] is [name, node, nodeconf, segleft]; [root_entry] is the first one.
+    - [segments path]   the non-empty "/"-separated segments; the dispatcher walks
+                        [fullpath_of path = segments path ++ ["index"]]; [path_of segs] = "/s1/s2...".
+    - [entry_sections aconf fp flen prev segleft]  the sections of [aconf] named by the path
+                        prefixes fp[:j], flen-prev < j <= flen-segleft (the segments one trail entry
+                        consumed), shallowest first, those that exist.
+    - [marker fp flen e]  the dict {tools.staticdir.section: prefix} set_conf adds after a level that
+                        sets tools.staticdir.dir (else nothing).
+    - [trail_levels aconf fp flen prev t]  per trail entry e, in order:
+                        [node_conf (e_node e)] (the object's _cp_config), then [entry_sections] for the
+                        segments it consumed, then [marker];  [last_segleft prev r1]: segleft of the
+                        entry before.
+    - [req_levels aconf root fp rest] = [n_conf root; section "/" if any] ++ marker ++ trail_levels rest.
+    - [handler_levels]  MethodDispatcher only: the verb handler's _cp_config, merged last.
+    - [all_levels mode ... rest] = req_levels ++ handler_levels: every dict of the request, in merge order.
+    - [remove_section p aconf]  app.config without the section named p;
+      [seg_ok s]: a segment (non-empty, no "/").
+    - [find_config aconf path key]  Application.find_config; [cands r]: the section names it tries for
+                        the path "/" ++ r, longest first (the path, cut at each "/" from the right, "/");
+                        [first_hit aconf key l]: the value of key in the first section of l that sets it.
+    - [run_toolbox truthy is_none ns known config] = (request.toolmaps[ns], the tools set up
+                        (Tool._setup: name, hook priority, kwargs), no exception);  [truthy v] = bool(v),
+                        [is_none v] = (v is None) are inputs;  [tool_key ns t a] = "ns.t.a";
+                        [tool_on] = bool(config.get("ns.t.on", False));  [lookup2 t a m] = m[t][a].
+    - [build c E a]     _Builder.build over the AST forms it has a build_ method for ([c_sub c]: there is a
+                        build_Sub - the repaired code; Refuted/R_C08.v has the witness for the code as
+                        found);  [to_ast v] = ast.parse(repr v);  [wf_lit v]: a Python literal the model
+                        represents (no opaque objects, integral float magnitudes < 10^16, dict keys None /
+                        int / str / bytes / tuples of such, pairwise different);  [canon v]: v with the sign
+                        of a zero component of a complex dropped (Python's own evaluation of the repr loses
+                        it);  [py_eq]: Python == between values of identical nested types;
+                        [zero_free v]: no complex number in v has a zero component. *)
 From Coq Require Import ZArith List Bool.
-From CV Require Import Lib.Sx Lib.ListZ Model.M_dispatch Model.M_unrepr Model.M_config.
+From CV Require Import Lib.Sx Lib.ListZ Model.M_dispatch Model.M_unrepr Model.M_config
+     Proof.P_dispatch Proof.P_dispatch_thm Proof.P_config Proof.P_config_tools Proof.P_unrepr
+     Proof.P_config_thm.
 Import ListNotations.
 Open Scope Z_scope.
-Example c08_stub : rcut [47;97;47;98] = Some [47;97].
-Proof. reflexivity. Qed.
-Print Assumptions c08_stub.
+
+(** Whatever the tree, the sections, the global config and the path, for both dispatchers:
+    request.config is the global config overlaid, in order, with the root's _cp_config, the
+    section "/", then per trail entry the object's _cp_config followed by the sections for the
+    path prefixes it consumed (and last the verb handler's _cp_config under MethodDispatcher). *)
+Theorem c08_merge : forall mode na root aconf gconf path method cfg,
+  request_conf mode na root aconf gconf path method = Some cfg ->
+  exists rest,
+    fh_trail (find_handler na root aconf path)
+    = Some (root_entry root aconf (lenZ (fullpath_of path)) :: rest) /\
+    (Forall uniq (all_levels mode na root aconf path method rest) ->
+     same_dict cfg (fold_left overlay (all_levels mode na root aconf path method rest) gconf)).
+Proof. exact thm_request_merge. Qed.
+Print Assumptions c08_merge.
+
+(** A default handler contributes its own _cp_config at the level of the object that owns it:
+    its trail entry is inserted right after the owner's (trail index i), with the owner's segleft,
+    so it contributes [n_conf d] (and the staticdir marker) and no section a second time; nothing
+    deeper on the trail offered a handler. *)
+Theorem c08_default_level : forall na root aconf path d v ii i T,
+  find_handler na root aconf path = FHFound d v ii i true T ->
+  exists trail e owner,
+    trail_of na root aconf path = WOk trail /\ nthZ i trail = Some e /\
+    e_node e = Some owner /\ getattr owner s_default = Some d /\
+    (forall j e', i < j -> nthZ j trail = Some e' -> pick e' = None) /\
+    T = insert_at (i + 1) (Entry s_default (Some d) (n_conf d) (e_segleft e)) trail /\
+    (forall r, trail_levels aconf (fullpath_of path) (lenZ (fullpath_of path)) (e_segleft e)
+                            (Entry s_default (Some d) (n_conf d) (e_segleft e) :: r)
+               = n_conf d :: marker (fullpath_of path) (lenZ (fullpath_of path))
+                                    (Entry s_default (Some d) (n_conf d) (e_segleft e))
+                         ++ trail_levels aconf (fullpath_of path) (lenZ (fullpath_of path)) (e_segleft e) r).
+Proof. exact thm_default_level. Qed.
+Print Assumptions c08_default_level.
+
+(** The value of every key is the one given by the last dict (in merge order) that sets it,
+    else the global one ... *)
+Theorem c08_value : forall mode na root aconf gconf path method cfg,
+  request_conf mode na root aconf gconf path method = Some cfg ->
+  exists rest,
+    fh_trail (find_handler na root aconf path)
+    = Some (root_entry root aconf (lenZ (fullpath_of path)) :: rest) /\
+    (Forall uniq (all_levels mode na root aconf path method rest) ->
+     forall k, assoc k cfg = lookup_levels k (all_levels mode na root aconf path method rest) gconf).
+Proof. exact thm_request_value. Qed.
+Print Assumptions c08_value.
+
+(** ... so an entry deeper on the path always overrides a shallower one: if the dict [c] sets k
+    and no dict after it does, request.config[k] is c's value - whatever the dicts before say. *)
+Theorem c08_deeper_wins : forall mode na root aconf gconf path method cfg,
+  request_conf mode na root aconf gconf path method = Some cfg ->
+  exists rest,
+    fh_trail (find_handler na root aconf path)
+    = Some (root_entry root aconf (lenZ (fullpath_of path)) :: rest) /\
+    forall k l1 c l2 v,
+      all_levels mode na root aconf path method rest = l1 ++ c :: l2 ->
+      Forall uniq (all_levels mode na root aconf path method rest) ->
+      assoc k c = Some v -> Forall (fun c' => assoc k c' = None) l2 ->
+      assoc k cfg = Some v.
+Proof. exact thm_deeper_wins. Qed.
+Print Assumptions c08_deeper_wins.
+
+(** A key nobody on the path sets keeps its global value. *)
+Theorem c08_global_kept : forall mode na root aconf gconf path method cfg,
+  request_conf mode na root aconf gconf path method = Some cfg ->
+  exists rest,
+    fh_trail (find_handler na root aconf path)
+    = Some (root_entry root aconf (lenZ (fullpath_of path)) :: rest) /\
+    forall k,
+      Forall uniq (all_levels mode na root aconf path method rest) ->
+      Forall (fun c => assoc k c = None) (all_levels mode na root aconf path method rest) ->
+      assoc k cfg = assoc k gconf.
+Proof. exact thm_nobody_sets_request. Qed.
+Print Assumptions c08_global_kept.
+
+(** An application section overrides _cp_config at the same level: for the trail entry e (after
+    r1), a section [sec] among the sections of e's level that sets k, with nothing after it setting
+    k (later sections of the level, the marker, deeper levels, the verb handler), decides
+    request.config[k] - whatever e's object says in its _cp_config. *)
+Theorem c08_section_beats_cp_config : forall mode na root aconf gconf path method cfg,
+  request_conf mode na root aconf gconf path method = Some cfg ->
+  exists rest,
+    fh_trail (find_handler na root aconf path)
+    = Some (root_entry root aconf (lenZ (fullpath_of path)) :: rest) /\
+    forall r1 e r2 s1 sec s2 k v,
+      rest = r1 ++ e :: r2 ->
+      entry_sections aconf (fullpath_of path) (lenZ (fullpath_of path))
+                     (last_segleft (lenZ (fullpath_of path)) r1) (e_segleft e) = s1 ++ sec :: s2 ->
+      Forall uniq (all_levels mode na root aconf path method rest) ->
+      assoc k sec = Some v ->
+      Forall (fun c => assoc k c = None)
+             (s2 ++ marker (fullpath_of path) (lenZ (fullpath_of path)) e
+                 ++ trail_levels aconf (fullpath_of path) (lenZ (fullpath_of path)) (e_segleft e) r2
+                 ++ handler_levels mode na root aconf path method) ->
+      assoc k cfg = Some v.
+Proof. exact thm_section_beats. Qed.
+Print Assumptions c08_section_beats_cp_config.
+
+(** The same at the root: the section "/" beats the root object's _cp_config. *)
+Theorem c08_root_section_beats_cp_config : forall mode na root aconf gconf path method cfg,
+  request_conf mode na root aconf gconf path method = Some cfg ->
+  exists rest,
+    fh_trail (find_handler na root aconf path)
+    = Some (root_entry root aconf (lenZ (fullpath_of path)) :: rest) /\
+    forall sec k v,
+      assoc s_slash aconf = Some sec ->
+      Forall uniq (all_levels mode na root aconf path method rest) ->
+      assoc k sec = Some v ->
+      Forall (fun c => assoc k c = None)
+             (marker (fullpath_of path) (lenZ (fullpath_of path))
+                     (root_entry root aconf (lenZ (fullpath_of path)))
+                 ++ trail_levels aconf (fullpath_of path) (lenZ (fullpath_of path))
+                                 (lenZ (fullpath_of path)) rest
+                 ++ handler_levels mode na root aconf path method) ->
+      assoc k cfg = Some v.
+Proof. exact thm_root_section_beats. Qed.
+Print Assumptions c08_root_section_beats_cp_config.
+
+(** An entry for one path never affects requests outside that path's subtree: a section named
+    by the segment list q contributes nothing to a request whose segments (+ the hidden index
+    token) do not have q as a prefix - whatever STRING prefix the two paths share (the section
+    "/ab" and the request "/abc"); removing the section changes nothing ... *)
+Theorem c08_scoped : forall q mode na root aconf gconf path method,
+  q <> [] -> Forall seg_ok q ->
+  (forall suf, segments path ++ [s_index] <> q ++ suf) ->
+  request_conf mode na root (remove_section (path_of q) aconf) gconf path method
+  = request_conf mode na root aconf gconf path method.
+Proof. exact thm_scoped_segments. Qed.
+Print Assumptions c08_scoped.
+
+(** ... and neither does adding it or changing its content in any way. *)
+Theorem c08_scoped_any_change : forall q mode na root aconf aconf' gconf path method,
+  q <> [] -> Forall seg_ok q ->
+  (forall suf, segments path ++ [s_index] <> q ++ suf) ->
+  remove_section (path_of q) aconf = remove_section (path_of q) aconf' ->
+  request_conf mode na root aconf gconf path method
+  = request_conf mode na root aconf' gconf path method.
+Proof. exact thm_scoped_change. Qed.
+Print Assumptions c08_scoped_any_change.
+
+(** Application.find_config, for every path "/..." (empty segments and a trailing slash
+    included; "" is looked up as "/"): the value from the longest section prefix that sets the
+    key, else the default; the explicit out-of-fuel result of the model is unreachable. *)
+Theorem c08_find_config : forall aconf r key,
+  find_config aconf (47 :: r) key = first_hit aconf key (cands r).
+Proof. exact thm_find_config_gen. Qed.
+Print Assumptions c08_find_config.
+
+Theorem c08_find_config_total : forall aconf path key, find_config aconf path key <> FCFuel.
+Proof. exact thm_find_config_total. Qed.
+Print Assumptions c08_find_config_total.
+
+(** A tool runs exactly when the effective config turns it on, once, with the merged arguments:
+    when the toolbox namespace ns raises nothing, the tools set up are pairwise different; tool t
+    is set up iff bool(config.get("ns.t.on", False)) (t is the text between the first two dots); it is a
+    tool of the toolbox; its kwargs are exactly the merged "ns.t.*" entries minus [on] and
+    [priority]; [priority], unless absent or None, becomes the hook priority. *)
+Theorem c08_tools : forall truthy is_none ns known config m l,
+  ~ In 46 ns -> uniq config ->
+  run_toolbox truthy is_none ns known config = (m, l, true) ->
+  NoDup (map s_tool l) /\
+  forall t,
+    ((exists s, In s l /\ s_tool s = t) <-> (~ In 46 t /\ tool_on truthy ns t config = true)) /\
+    (forall s, In s l -> s_tool s = t ->
+       mem_str t known = true /\
+       (forall a, a <> s_on -> a <> s_priority ->
+                  assoc a (s_kwargs s) = assoc (tool_key ns t a) config) /\
+       assoc s_on (s_kwargs s) = None /\
+       assoc s_priority (s_kwargs s) = None /\
+       s_prio s = match assoc (tool_key ns t s_priority) config with
+                  | Some v => if is_none v then None else Some v
+                  | None => None
+                  end).
+Proof. exact thm_tools. Qed.
+Print Assumptions c08_tools.
+
+(** request.toolmaps as the handler sees it: a probe toolmaps[ns][t][a] is the probe
+    config["ns.t.a"] of the merged config. *)
+Theorem c08_toolmaps : forall truthy is_none ns known config m l t a,
+  ~ In 46 ns -> ~ In 46 t -> uniq config ->
+  run_toolbox truthy is_none ns known config = (m, l, true) ->
+  lookup2 t a m = assoc (ns ++ 46 :: t ++ 46 :: a) config.
+Proof. exact thm_toolmap_of_config. Qed.
+Print Assumptions c08_toolmaps.
+
+(** An INI value evaluates to the same Python object as the literal it is the repr of (repaired
+    builder: [c_sub c]; as found: only when the repr has no binary minus, see Refuted/R_C08.v):
+    by induction over nested lists / tuples / dicts of None, bools, ints, floats, complex numbers
+    (negative parts included), strings and bytes, build (ast.parse (repr v)) is [canon v], which is
+    == v with identical nested types, and is v itself when no complex number in v has a zero component.
+
+    PARTIAL in one respect.  Full statement:  the same for every Python literal, i.e. with [wf_lit]
+    not restricting dict keys.  Missing: dict literals whose keys are (or contain) bools, floats or
+    complex numbers - which keys collide is decided by Python's cross-type numeric equality
+    (1 == 1.0 == True), which the model does not have ([mk_dict] answers EUnknown there; the check
+    compares those INI values with the dict values directly, without the model). *)
+Theorem c08_unrepr_partial : forall c E v,
+  wf_lit v = true -> c_sub c = true \/ sub_free v = true ->
+  build c E (to_ast v) = Ok (canon v) /\ py_eq (canon v) v = true /\
+  (zero_free v = true -> canon v = v).
+Proof. exact thm_unrepr_full. Qed.
+Print Assumptions c08_unrepr_partial.
+
+(** Non-vacuity.  A tree  root{k:r} - /a{k:a, l:a2} (un-exposed, exposed default{n:d}) - /a/b{k:b}
+    (exposed), sections "/"{k:S/} "/a"{k:Sa, l:Sa2} "/a/b"{m:Sab} "/ab"{k:LEAK}, global {k:g, o:g5}:
+    "/a/b" and "/a/x" (served by the default handler) meet the hypotheses of c08_merge / c08_value /
+    c08_deeper_wins / c08_global_kept / c08_default_level, with the levels spelled out. *)
+Example c08_nonvacuous_merge :
+  request_conf 0 [] c8_root c8_aconf c8_g c8_p_ab []
+  = Some [([107], [98]); ([111], [103;53]); ([108], [83;97;50]); ([109], [83;97;98])] /\
+  (let rest := rest_of (find_handler [] c8_root c8_aconf c8_p_ab) in
+   fh_trail (find_handler [] c8_root c8_aconf c8_p_ab)
+   = Some (root_entry c8_root c8_aconf (lenZ (fullpath_of c8_p_ab)) :: rest) /\
+   all_levels 0 [] c8_root c8_aconf c8_p_ab [] rest
+   = [[([107], [114])]; [([107], [83;47])];
+      [([107], [97]); ([108], [97;50])]; [([107], [83;97]); ([108], [83;97;50])];
+      [([107], [98])]; [([109], [83;97;98])]; []] /\
+   Forall uniq (all_levels 0 [] c8_root c8_aconf c8_p_ab [] rest)) /\
+  request_conf 0 [] c8_root c8_aconf c8_g c8_p_ax []
+  = Some [([107], [83;97]); ([111], [103;53]); ([108], [83;97;50]); ([110], [100])] /\
+  (let rest := rest_of (find_handler [] c8_root c8_aconf c8_p_ax) in
+   fh_trail (find_handler [] c8_root c8_aconf c8_p_ax)
+   = Some (root_entry c8_root c8_aconf (lenZ (fullpath_of c8_p_ax)) :: rest) /\
+   all_levels 0 [] c8_root c8_aconf c8_p_ax [] rest
+   = [[([107], [114])]; [([107], [83;47])];
+      [([107], [97]); ([108], [97;50])]; [([107], [83;97]); ([108], [83;97;50])];
+      [([110], [100])]; []; []] /\
+   Forall uniq (all_levels 0 [] c8_root c8_aconf c8_p_ax [] rest)) /\
+  (exists v ii T, find_handler [] c8_root c8_aconf c8_p_ax = FHFound c8_d v ii 1 true T).
+Proof. exact ex8_merge. Qed.
+Print Assumptions c08_nonvacuous_merge.
+
+(** The hypotheses of c08_section_beats_cp_config on "/a/b": at the level of /a the object says
+    l = a2, the section "/a" says l = Sa2, nothing deeper sets l. *)
+Example c08_nonvacuous_section_beats :
+  let fp := fullpath_of c8_p_ab in
+  let rest := rest_of (find_handler [] c8_root c8_aconf c8_p_ab) in
+  exists e r2 sec,
+    rest = [] ++ e :: r2 /\
+    entry_sections c8_aconf fp (lenZ fp) (last_segleft (lenZ fp) []) (e_segleft e) = [] ++ sec :: [] /\
+    assoc [108] (node_conf (e_node e)) = Some [97;50] /\
+    assoc [108] sec = Some [83;97;50] /\
+    Forall (fun c => assoc [108] c = None)
+           ([] ++ marker fp (lenZ fp) e ++ trail_levels c8_aconf fp (lenZ fp) (e_segleft e) r2
+               ++ handler_levels 0 [] c8_root c8_aconf c8_p_ab []).
+Proof. exact ex8_section_beats. Qed.
+Print Assumptions c08_nonvacuous_section_beats.
+
+(** The hypotheses of c08_scoped for the section "/ab" and the request "/abc" (k stays S/); on
+    "/ab" itself the section applies (k = LEAK). *)
+Example c08_nonvacuous_scoped :
+  [[97;98]] <> [] /\ Forall seg_ok [[97;98]] /\
+  (forall suf, segments c8_p_abc ++ [s_index] <> [[97;98]] ++ suf) /\
+  path_of [[97;98]] = [47;97;98] /\
+  request_conf 0 [] c8_root c8_aconf c8_g c8_p_abc [] = Some [([107], [83;47]); ([111], [103;53])] /\
+  request_conf 0 [] c8_root c8_aconf c8_g [47;97;98] []
+  = Some [([107], [76;69;65;75]); ([111], [103;53])].
+Proof. exact ex8_scoped. Qed.
+Print Assumptions c08_nonvacuous_scoped.
+
+(** find_config: the candidates of "/a/b/"; k for "/a/b/c" comes from "/a", for "/abc" from "/". *)
+Example c08_nonvacuous_find_config :
+  cands [97;47;98;47] = [[47;97;47;98;47]; [47;97;47;98]; [47;97]; [47]] /\
+  find_config c8_aconf [47;97;47;98;47;99] [107] = FCFound [83;97] /\
+  find_config c8_aconf c8_p_abc [107] = FCFound [83;47] /\
+  find_config c8_aconf c8_p_ab [109] = FCFound [83;97;98] /\
+  find_config c8_aconf c8_p_ab [122] = FCDefault.
+Proof. exact ex8_find_config. Qed.
+Print Assumptions c08_nonvacuous_find_config.
+
+(** tools.gz.on = True, level = 9, priority = 70; tools.off.on = False, x = 1; other.key = z;
+    tools.np.on = 1, priority = None: gz is set up with priority 70 and kwargs {level: 9}, np with
+    the default priority and no kwargs, off is not. *)
+Example c08_nonvacuous_tools :
+  ~ In 46 c8_s_tools /\ uniq c8_tconf /\
+  run_toolbox c8_truthy c8_is_none c8_s_tools [[103;122]; [110;112]] c8_tconf
+  = ([([103;122], [(s_on, [84;114;117;101]); ([108;101;118;101;108], [57]); (s_priority, [55;48])]);
+      ([111;102;102], [(s_on, [70;97;108;115;101]); ([120], [49])]);
+      ([110;112], [(s_on, [49]); (s_priority, [78;111;110;101])])],
+     [Setup [103;122] (Some [55;48]) [([108;101;118;101;108], [57])];
+      Setup [110;112] None []],
+     true).
+Proof. exact ex8_tools. Qed.
+Print Assumptions c08_nonvacuous_tools.
+
+(** {'a': [(1-2j), -1.5, (-7, None)], 3: (-0-2j)} (a zero component: canonicalised) and
+    [(1-2j), -3] (read back unchanged); both need build_Sub. *)
+Example c08_nonvacuous_unrepr :
+  wf_lit ex_lit = true /\ sub_free ex_lit = false /\ zero_free ex_lit = false /\
+  build (Cfg true) (Env [] [] []) (to_ast ex_lit) = Ok (canon ex_lit) /\
+  wf_lit ex_lit2 = true /\ sub_free ex_lit2 = false /\ zero_free ex_lit2 = true /\
+  build (Cfg true) (Env [] [] []) (to_ast ex_lit2) = Ok ex_lit2 /\
+  build (Cfg false) (Env [] [] []) (to_ast ex_lit2) = Err ENoBuilder.
+Proof. exact ex8_unrepr. Qed.
+Print Assumptions c08_nonvacuous_unrepr.
